@@ -31,21 +31,41 @@ double peekU(const RandomEngine & e) {
 }
 }
 
+// ops: "u act res" = stepUpdateP, "a v" = setAParam, "b v" = setBParam
 void c09_lrp(const std::string &, vio::Cursor & c, vio::Out & o) {
     c.next();                                       // exactness flag (driver only)
     const size_t A = c.nextSize();
     const double a = c.nextDouble(), b = c.nextDouble(), eps = c.nextDouble();
     const size_t nops = c.nextSize();
-    std::vector<std::pair<size_t, bool>> ops;
-    for (size_t k = 0; k < nops; ++k) { size_t act = c.nextSize(); bool r = c.nextSize() != 0; ops.emplace_back(act, r); }
+    struct Op { char k; size_t act; bool res; double v; };
+    std::vector<Op> ops;
+    for (size_t k = 0; k < nops; ++k) {
+        const std::string t = c.next();
+        Op op{t[0], 0, false, 0.0};
+        if (t == "u") { op.act = c.nextSize(); op.res = c.nextSize() != 0; }
+        else op.v = c.nextDouble();
+        ops.push_back(op);
+    }
+    const std::vector<double> esets = c.nextDoubles();
     const unsigned seed = (unsigned) c.nextSize();
     const size_t nsamp = c.nextSize();
     Seeder::setRootSeed(seed);
     BLrp p(A, a, b);
-    dumpBoth(o, p, A);
-    for (auto [act, r] : ops) { p.stepUpdateP(act, r); dumpBoth(o, p, A); }
+    dumpBoth(o, p, A); o << p.getAParam() << p.getBParam();
+    for (const auto & op : ops) {
+        if (op.k == 'u') p.stepUpdateP(op.act, op.res);
+        else if (op.k == 'a') p.setAParam(op.v);
+        else p.setBParam(op.v);
+        dumpBoth(o, p, A); o << p.getAParam() << p.getBParam();
+    }
     BEps e(p, eps);
     dumpBoth(o, e, A);
+    for (double v : esets) {                        // setEpsilon: throws outside [0,1]
+        bool thrown = false;
+        try { e.setEpsilon(v); } catch (const std::invalid_argument &) { thrown = true; }
+        o << thrown << e.getEpsilon();
+        dumpBoth(o, e, A);
+    }
     for (size_t k = 0; k < nsamp; ++k) { o << peekU(p.eng()); o << p.sampleAction(); }
     for (size_t k = 0; k < nsamp; ++k) {
         RandomEngine ce = e.eng();
